@@ -293,6 +293,10 @@ func ruleC01d(c *Ctx) []*report.Result {
 			}
 		}
 	}
+	// a restore deferred inside a loop does not run between the iterations
+	for _, e := range eventsOf(a.It, "deferloop") {
+		r.Fail(shortFn(e.Fn.String())+" / call deferred inside a loop", c.P.Pos(e.Instr.Pos()), "a call deferred inside a loop ("+e.Detail["callee"]+") runs only when the function returns, once per iteration: what it was meant to undo stays in force for the rest of the loop", nil, "")
+	}
 	n := 0
 	for f := range bal {
 		if seen[f] > 0 {
